@@ -159,6 +159,22 @@ class CCodeMapper(SimplifyingSortingStringifyMapper):
                     self.rec(expr.numerator, PREC_PRODUCT),
                     self.rec(expr.denominator, PREC_POWER))  # analogous to ^{-1}
 
+    def map_comparison(self, expr, enclosing_prec):
+        # In C, comparisons bind more tightly than & ^ |.
+        from pymbolic.mapper.stringifier import PREC_COMPARISON
+        from pymbolic.primitives import BitwiseAnd, BitwiseOr, BitwiseXor
+        bitwise = (BitwiseAnd, BitwiseOr, BitwiseXor)
+        return self.parenthesize_if_needed(
+                self.format("%s %s %s",
+                    self.rec_with_force_parens_around(
+                        expr.left, PREC_COMPARISON+1,
+                        force_parens_around=bitwise),
+                    expr.operator,
+                    self.rec_with_force_parens_around(
+                        expr.right, PREC_COMPARISON+1,
+                        force_parens_around=bitwise)),
+                enclosing_prec, PREC_COMPARISON)
+
     def map_logical_not(self, expr, enclosing_prec):
         return self.parenthesize_if_needed(
                 "!" + self.rec(expr.child, PREC_UNARY),
